@@ -247,9 +247,43 @@ class Prop(SeqProp):
     # the first calls a process makes to the numeral functions come from several threads at once (harness/threads.py), then
     # the whole domain is swept: a memo table filled on demand must not get out of step
     def extra_scenarios(self, rng, tier):
-        return [{"kind": "cold-threads-roman"}] * (1 if tier == "quick" else 4)
+        out = [{"kind": "cold-threads-roman"}] * (1 if tier == "quick" else 4)
+        # sub-sequence search over elements for which equality is not simply comparing values: an object that is not equal to
+        # itself (a NaN), equal objects of different types (1, 1.0, True), None, nested tuples and lists
+        for _ in range(150 if tier == "quick" else 1500):
+            out.append({"kind": "odd-elements", "seed": rng.randrange(1 << 30)})
+        return out
 
     def run_extra(self, desc):
+        if desc["kind"] == "odd-elements":
+            import random
+            from windpyutils import generic as g
+            r = random.Random(desc["seed"])
+            nan = float("nan")
+            alphabet = [nan, 0, 1, 1.0, True, None, "a", (1, 2), [3], nan]
+            s2 = [r.choice(alphabet) for _ in range(r.randint(0, 9))]
+            if s2 and r.random() < 0.7:
+                i = r.randrange(len(s2)); j = r.randint(i + 1, min(len(s2), i + 3))
+                s1 = s2[i:j]
+            else:
+                s1 = [r.choice(alphabet) for _ in range(r.randint(1, 3))]
+            form = r.randrange(3)
+            a1, a2 = ([s1, s2], [tuple(s1), tuple(s2)], [list(s1), tuple(s2)])[form]
+            occ = [(i, i + len(s1)) for i in range(len(s2) - len(s1) + 1) if list(s2[i:i + len(s1)]) == list(s1)]
+            try:
+                got_sub = g.sub_seq(a1, a2)
+                got_search = g.search_sub_seq(a1, a2) if s1 and s2 else None
+            except ValueError:
+                return None if (not s1 or not s2) else f"sub_seq / search_sub_seq raised ValueError for {s1!r} in {s2!r}"
+            except Exception as e:  # noqa
+                return f"sub_seq / search_sub_seq raised {type(e).__name__} for {s1!r} in {s2!r}"
+            if form == 2:
+                return None  # a list never equals a tuple: nothing is compared across the two sequence types
+            if bool(got_sub) != bool(occ) and s1:
+                return f"sub_seq({s1!r}, {s2!r}) = {got_sub!r}; slices of s2 equal to s1 start at {[o[0] for o in occ]}"
+            if got_search is not None and [tuple(x) for x in got_search] != occ:
+                return f"search_sub_seq({s1!r}, {s2!r}) = {got_search!r}; the occurrences are {occ}"
+            return None
         import subprocess
         import sys
         from .. import core
